@@ -480,3 +480,89 @@ Proof.
   split; [|split; vm_compute; reflexivity].
   apply M_json_accessspec; reflexivity.
 Qed.
+
+(* ------------------------------------------------------------------ replies: one command, one request *)
+Lemma try_send_ok : forall s, try_send max_send_attempts (AOk :: s) = (1%nat, true).
+Proof. reflexivity. Qed.
+Lemma try_send_nil : try_send max_send_attempts [] = (1%nat, true).
+Proof. reflexivity. Qed.
+Lemma try_send_fault : forall s, try_send max_send_attempts (AFault :: s) = (1%nat, false).
+Proof. reflexivity. Qed.
+
+(* TrySend sends once unless the client was closed under the request, and never more than 3 times *)
+Lemma try_send_once_unless_closed : forall script,
+  (forall t, script <> AClosed :: t) -> fst (try_send max_send_attempts script) = 1%nat.
+Proof.
+  intros [|[| |] t] H; try reflexivity. exfalso. apply (H t). reflexivity.
+Qed.
+
+Lemma try_send_bounded : forall fuel script, (fst (try_send fuel script) <= fuel)%nat.
+Proof.
+  induction fuel as [|f IH]; intro script; cbn [try_send fst]; [lia|].
+  destruct script as [|[| |] t]; cbn [fst]; try lia.
+  specialize (IH t). destruct (try_send f t) as [n ok]. cbn [fst] in *. lia.
+Qed.
+
+Lemma read_loop_reply_ok : forall script reqs acc,
+  (script = [] \/ exists s, script = AOk :: s) ->
+  read_loop_reply script reqs acc = read_loop reqs acc.
+Proof.
+  intros script reqs acc Hs.
+  assert (try_send max_send_attempts script = (1%nat, true)) as Ht
+    by (destruct Hs as [->|[s ->]]; reflexivity).
+  revert acc. induction reqs as [|r t IH]; intro acc; cbn [read_loop_reply read_loop]; [reflexivity|].
+  destruct (read_request r) as [q|e]; [|reflexivity].
+  rewrite Ht. cbn [repeat]. destruct (r_type r); try reflexivity. apply IH.
+Qed.
+
+Lemma run_reply_ok : forall b script c,
+  (script = [] \/ exists s, script = AOk :: s) -> run_reply b script c = run b c.
+Proof.
+  intros b script c Hs.
+  assert (try_send max_send_attempts script = (1%nat, true)) as Ht
+    by (destruct Hs as [->|[s ->]]; reflexivity).
+  destruct c as [reqs|reqs params]; cbn [run_reply run].
+  - unfold run_read. destruct reqs as [|r t]; [reflexivity|]. apply read_loop_reply_ok. exact Hs.
+  - destruct (cmd_to_request b (CWrite reqs params)); [|reflexivity]. rewrite Ht. reflexivity.
+Qed.
+
+Lemma read_loop_prefix : forall reqs acc, exists l, sent (read_loop reqs acc) = acc ++ l.
+Proof.
+  induction reqs as [|r t IH]; intro acc; cbn [read_loop].
+  - exists []. rewrite app_nil_r. reflexivity.
+  - destruct (read_request r) as [q|e]; [|exists []; rewrite app_nil_r; reflexivity].
+    destruct (r_type r); try (exists [q]; reflexivity).
+    destruct (IH (acc ++ [q])) as [l Hl]. exists (q :: l). rewrite Hl, <- app_assoc. reflexivity.
+Qed.
+
+(* A fault reply (connection up): what is on the wire is the FIRST request of the fault-free run,
+   exactly once, and the command returns an error if it sent anything *)
+Lemma fault_reply_one_request : forall b s c,
+  sent (run_reply b (AFault :: s) c) = firstn 1 (sent (run b c)) /\
+  failed (run_reply b (AFault :: s) c) = true.
+Proof.
+  intros b s c. destruct c as [reqs|reqs params]; cbn [run_reply run].
+  - unfold run_read. destruct reqs as [|r t]; [split; reflexivity|].
+    cbn [read_loop_reply read_loop]. destruct (read_request r) as [q|e]; [|split; reflexivity].
+    rewrite try_send_fault. cbn [repeat app sent failed].
+    destruct (r_type r); try (split; reflexivity).
+    destruct (read_loop_prefix t [q]) as [l Hl]. rewrite Hl. split; reflexivity.
+  - destruct (cmd_to_request b (CWrite reqs params)) as [q|e]; [|split; reflexivity].
+    rewrite try_send_fault. split; reflexivity.
+Qed.
+
+(* whatever the replies: a write command never puts two different requests on the wire and at most
+   maxSendAttempts copies, and exactly one copy unless the client was closed under it *)
+Lemma write_reply_shape : forall b script reqs params,
+  exists q n, (n <= max_send_attempts)%nat /\
+    (sent (run_reply b script (CWrite reqs params)) = repeat q n) /\
+    ((forall t, script <> AClosed :: t) -> (n <= 1)%nat).
+Proof.
+  intros b script reqs params. cbn [run_reply].
+  destruct (cmd_to_request b (CWrite reqs params)) as [q|e].
+  - pose proof (try_send_bounded max_send_attempts script) as Hb.
+    pose proof (try_send_once_unless_closed script) as H1.
+    destruct (try_send max_send_attempts script) as [n ok]. cbn [fst] in *.
+    exists q, n. repeat split; try assumption. intro H. rewrite (H1 H). lia.
+  - exists GetROSpecs, O. repeat split; cbn; lia.
+Qed.
